@@ -496,7 +496,8 @@ func runAclSeq(w *bufio.Writer, seqW *bufio.Writer, s AclSeq) error {
 
 var aclTokens = []string{"on", "off", "ON", ">p1", ">p2", "<p1", "nopass", "resetpass", "nocommands", "allCategories", "+@read", "+@write", "-@write",
 	"+@all", "-@all", "+@fast", "+@slow", "+@admin", "+@dangerous", "+@pubsub", "allKeys", "~a*", "%R~a*", "%W~b*", "%RW~c*", "%R~*", "nokeys", "resetkeys", "NOKEYS",
-	"allChannels", "+&c*", "-&c1", "resetchannels", "allCommands", "+get", "+set", "-set", "+mget", "+acl|whoami", "+acl|setuser", "+all", "+@a", "~", "x"}
+	"allChannels", "+&c*", "-&c1", "resetchannels", "allCommands", "+get", "+set", "-set", "+mget", "+acl|whoami", "+acl|setuser", "+all", "+@a", "~", "x",
+	"~[", "%R~[b-a]", "%W~[", "%RW~a[", "+&[", "-&[a", "&[", "~a**"}
 
 func (g *Gen) aclCommand() []string {
 	name := g.Pick([]string{"alice", "bob", "default", "alice", "carol"})
@@ -636,6 +637,14 @@ func RunAclA(w *bufio.Writer, seed int64, tier string, replay string) error {
 		op(0, "acl", "setuser", "bob", "on", "", ">p1"), op(0, "acl", "setuser", "alice", "on", ">p1"), op(0, "acl", "setuser", "alice", "off", ""), op(0, "acl", "users"),
 		op(1, "auth", "alice", "p1"), op(1, "acl", "whoami")); err != nil {
 		return err
+	}
+	// a pattern that does not compile is refused and the user is left as it was (glob.MustCompile used to panic)
+	for _, bad := range []string{"~[", "%R~[b-a]", "%W~[", "%RW~a[", "+&[", "-&[a"} {
+		if err := script(op(0, "auth", "pw"), op(0, "acl", "setuser", "alice", "on", ">p1", "+@all", "~a*"), op(1, "auth", "alice", "p1"), op(1, "get", "a1"),
+			op(0, "acl", "setuser", "alice", bad), op(0, "acl", "setuser", "alice", "off", "~b*", bad, "nopass"), op(0, "acl", "setuser", "bob", "on", bad), op(0, "acl", "users"),
+			op(1, "get", "a1"), op(1, "get", "b1"), op(1, "publish", "c1", "m"), op(0, "acl", "setuser", bad), op(0, "acl", "setuser", "alice", "&["), op(1, "get", "a1")); err != nil {
+			return err
+		}
 	}
 	n, length := 250, 40
 	if tier == "thorough" {
